@@ -230,12 +230,93 @@ def pins(key):
     return None
 
 
+def registration(check, P):
+    """R6: which hooks are registered after add_hook / remove_hook / move_hook sequences (a hook that is registered is
+    the one 'called once per linear move')."""
+    from ..interp import AbsRaise, _Return
+    W = World(P, "GCodeBuilder", keep_fields=("g._hooks",), universal_lists=())
+    I = W.I
+    node = ast.parse("0").body[0]
+    H = [Unk(f"hook{i}", "hook") for i in range(4)]
+    n = 0
+
+    def hooks(I_):
+        g = I_.heap[W.ref("g").addr]
+        o = I_.deref(g.fields["_hooks"])
+        return list(o.items) if isinstance(o, AList) and o.items is not None else None
+
+    def block(I_, hook, body, raises):
+        cm = W.call_method(I_, "g", "move_hook", (hook,))
+        gfr = cm.frame
+        inside = {}
+
+        def cb(val):
+            inside["hooks"] = hooks(I_)
+            body()
+            if raises:
+                I_.raise_("BodyError", node, note="with-body raises")
+        gfr.yield_cb = cb
+        depth = len(I_.frames)
+        I_.frames.append(gfr)
+        try:
+            try:
+                I_.exec_block(cm.func.node.body, gfr)
+            except _Return:
+                pass
+            except AbsRaise:
+                pass
+        finally:
+            del I_.frames[depth:]
+            gfr.yield_cb = None
+        return inside.get("hooks")
+
+    scenarios = []
+    for raises in (False, True):
+        tag = "raising" if raises else "returning"
+        scenarios += [
+            (f"add(h0); with move_hook(h1) [{tag} body]", lambda I_, r=raises: (W.call_method(I_, "g", "add_hook", (H[0],)), block(I_, H[1], lambda: None, r))[1],
+             [H[0], H[1]], [H[0]]),
+            (f"add(h0); with move_hook(h1): add(h2) [{tag} body]", lambda I_, r=raises: (W.call_method(I_, "g", "add_hook", (H[0],)),
+                                                                                           block(I_, H[1], lambda: W.call_method(I_, "g", "add_hook", (H[2],)), r))[1],
+             [H[0], H[1]], [H[0], H[2]]),
+            (f"add(h0); add(h3); with move_hook(h1): remove(h0) [{tag} body]", lambda I_, r=raises: (W.call_method(I_, "g", "add_hook", (H[0],)), W.call_method(I_, "g", "add_hook", (H[3],)),
+                                                                                                       block(I_, H[1], lambda: W.call_method(I_, "g", "remove_hook", (H[0],)), r))[2],
+             [H[0], H[3], H[1]], [H[3]]),
+            (f"with move_hook(h1): with move_hook(h2) [{tag} inner body]", lambda I_, r=raises: block(I_, H[1], lambda: block(I_, H[2], lambda: None, r), False),
+             [H[1]], []),
+        ]
+    scenarios.append(("add(h0); add(h0); remove(h0)", lambda I_: (W.call_method(I_, "g", "add_hook", (H[0],)), W.call_method(I_, "g", "add_hook", (H[0],)),
+                                                                  W.call_method(I_, "g", "remove_hook", (H[0],)), None)[3], None, []))
+    for label, script, want_inside, want_after in scenarios:
+        done = 0
+
+        def entry(I_, _, script=script):
+            inside = script(I_)
+            return Tup((Const(repr(inside)), Const(repr(hooks(I_)))))
+        for path in I.explore(lambda I_: None, entry, max_dev=None, max_paths=500):
+            n += 1
+            if path.outcome != "return":
+                continue
+            done += 1
+            got_in, got_after = path.value.items[0].v, path.value.items[1].v
+            ok_in = want_inside is None or got_in == repr(want_inside)
+            if ok_in and got_after == repr(want_after):
+                check.ok("R6", f"{label}: registered afterwards {[h.tag for h in want_after]}")
+            else:
+                check.violation("R6", f"registration:{label.split(' [')[0]}", f"after '{label}' the registered hooks are {got_after} (inside the block: {got_in}); "
+                                f"expected {[h.tag for h in want_after]} (inside: {[h.tag for h in want_inside] if want_inside is not None else 'n/a'}): "
+                                "a hook registered with add_hook stays registered, a removed one stays removed, move_hook removes only its own hook", [decisions_text(path)])
+        check.floor(done >= 1, f"C20.R6: scenario '{label}' has no completing path")
+    return n
+
+
 def run(check, repo, tier):
     check.rule("R1", "the tracer produces output only through move()")
     check.rule("R2", "each registered hook is called once per linear move, in order, with (resolved origin, absolute target, threaded parameters, state), in both distance modes")
     check.rule("R3", "the last hook's record is formatted into the G1 statement and remembered")
     check.rule("R4", "extrusion amount = 4*nozzle*layer*hypot(dx,dy)/(pi*filament^2) (+ previous E in absolute extrusion mode only)")
     check.rule("R5", "set_axis(E=...) reaches the remembered parameters shared by builder and state")
+    check.rule("R6", "registration: add_hook / remove_hook / move_hook (also nested, also with a raising body) leave exactly the hooks registered that the calls name")
     cr = CommandRun(repo, tier=tier, methods=["move", "move_absolute", "rapid", "rapid_absolute", "probe", "set_axis", "auto_home"],
                     with_invalid=False, transform="identity", max_dev=None, pins=pins, loop_unroll=2)
     results = cr.run(analyse)
@@ -251,7 +332,7 @@ def run(check, repo, tier):
             check.sample({"command": r["command"], "context": r["ctx"], "abstract_paths": r["paths"], "example": [it[2] for it in r["items"] if it[0] == "ok"][:2]})
     for rid, floor in (("R2", 100), ("R3", 20), ("R5", 4)):
         check.floor(not (counts.get(rid, 0) < floor), f"C20.{rid}: only {counts.get(rid, 0)} obligations decided (floor {floor})")
-    n4 = extrusion_rule(check, cr.program)
+    n4 = extrusion_rule(check, cr.program) + registration(check, cr.program)
     routing_rule(check, cr.program)
     check.analysed = dict(cr.stats, extrusion_paths=n4)
     check.coverage["exhaustive"] = True
